@@ -112,7 +112,7 @@ def run(ctx):
     ctx.rule('C04.8', 'footer arrays of both converters are written at the stride and in the order the reader derives')
     from .. import headerrules as HR
     from .c03 import check_footer
-    check_footer(ctx, HR.HeaderTable(P, G), 'C04.8', select=lambda f: f.module.name == 'conversion' and f.name == 'write_headers')
+    check_footer(ctx, HR.HeaderTable(P, G), 'C04.8', select=lambda f: f.module.name == 'conversion' and f.name == 'write_headers' and 'Sgz' not in (f.cls.name if f.cls else ''))
     ctx.floor('C04.8', 2, 'write_headers of the two converters')
 
 
